@@ -416,7 +416,8 @@ class Layouts:
                 return [Opaque(f"{'enc' if m == 'encrypt' else 'dec'}:{mode_s}", total(inner), of=inner, key=(recv[2][0], iv))]
             if m == "encode" and is_const(recv):
                 return [Const(recv[1].encode())]
-            self._unknown(t, f"(method {m})")
+            # a bytes value produced by a call we do not look into: one opaque segment identified by its term
+            return [Opaque(f"value:{show(t)[:60]}", Lin(0, {("len", show(t)[:60]): 1}), key=t)]
         if fr[0] == "func":
             q = fr[1]
             rt = self._inline(q, args, kwargs, depth)
